@@ -24,6 +24,7 @@ import hashlib
 import os
 
 from .. import translate
+from . import normalize
 
 DR = "fairlearn/metrics/_disaggregated_result.py"
 AMF = "fairlearn/metrics/_annotated_metric_function.py"
@@ -76,6 +77,7 @@ class ApplyFunctions:
         self.fn = fn
         self.data, self.fns, self.names = kwonly_names(fn, DR, 3)
         self.types = {self.data: "data", self.fns: "fns", self.names: "names"}
+        self.groupby_dropna = None
 
     def err(self, msg, node=None):
         ln = f" (line {node.lineno})" if node is not None and hasattr(node, "lineno") else ""
@@ -120,6 +122,36 @@ class ApplyFunctions:
         if len(call.args) != 1 or not first_positional(call.args[0]):
             raise self.err(f"unexpected positional arguments in {ast.unparse(call)}", call)
 
+    def groupby_keywords(self, g):
+        """`data.groupby(names, dropna=..., sort=..., group_keys=...)`: the grouping columns are the `grouping_names`
+        parameter (positional or `by=`); `dropna` is emitted (pandas default True: a row whose key contains a missing value is
+        in no group); `sort` / `group_keys` must have their default True (the primitives know the sorted, keyed result only);
+        every other keyword (`level`, `as_index`, `observed`, `axis`, ...) is refused."""
+        kws = {}
+        for k in g.keywords:
+            if k.arg is None or k.arg in kws:
+                raise self.err(f"unsupported groupby arguments in {ast.unparse(g)}", g)
+            kws[k.arg] = k.value
+        if len(g.args) == 1 and "by" not in kws:
+            by = g.args[0]
+        elif not g.args and "by" in kws:
+            by = kws.pop("by")
+        else:
+            raise self.err(f"expected {self.data}.groupby({self.names}, ...), found {ast.unparse(g)}", g)
+        if not is_name(by, self.names):
+            raise self.err(f"groupby is not over the parameter {self.names}: {ast.unparse(g)}", g)
+        if set(kws) - {"dropna", "sort", "group_keys"}:
+            raise self.err(f"unsupported groupby keyword(s) {sorted(set(kws) - {'dropna', 'sort', 'group_keys'})}", g)
+        for k, v in kws.items():
+            if not (isinstance(v, ast.Constant) and isinstance(v.value, bool)):
+                raise self.err(f"groupby {k}= is not a literal True / False: {ast.unparse(v)}", g)
+        for k in ("sort", "group_keys"):
+            if k in kws and kws[k].value is not True:
+                raise self.err(f"groupby({k}=False) is not modelled (the groupby primitive is the sorted, keyed result)", g)
+        if self.groupby_dropna is not None:
+            raise self.err("more than one groupby call", g)
+        self.groupby_dropna = kws["dropna"].value if "dropna" in kws else True
+
     def expr(self, e):
         """-> (lean, type)"""
         if isinstance(e, ast.Name):
@@ -134,11 +166,11 @@ class ApplyFunctions:
             if isinstance(e.func, ast.Attribute) and e.func.attr == "apply":
                 g = e.func.value
                 if not (isinstance(g, ast.Call) and isinstance(g.func, ast.Attribute) and g.func.attr == "groupby"
-                        and is_name(g.func.value, self.data) and len(g.args) == 1 and not g.keywords
-                        and is_name(g.args[0], self.names)):
+                        and is_name(g.func.value, self.data)):
                     raise self.err(f"expected {self.data}.groupby({self.names}).apply(...), found {ast.unparse(e)}", e)
+                self.groupby_keywords(g)
                 self.check_apply_kwargs(e, lambda a: is_name(a, "apply_to_dataframe"))
-                return f"groupbyApply {ident(self.data)} {self.names_list()} {ident(self.fns)}", "table"
+                return f"groupbyApplyNa groupby_dropna {ident(self.data)} {self.names_list()} {ident(self.fns)}", "table"
             if f in ("pd.MultiIndex.from_product", "MultiIndex.from_product"):
                 kws = {k.arg: k.value for k in e.keywords}
                 if set(kws) - {"names"} or ("names" in kws and not is_name(kws["names"], self.names)) or len(e.args) != 1:
@@ -206,7 +238,12 @@ class ApplyFunctions:
     def lean(self):
         body = self.block(self.fn.body, "  ")
         d, f, n = ident(self.data), ident(self.fns), ident(self.names)
-        return (f"/-- `DisaggregatedResult._apply_functions` -/\n"
+        if self.groupby_dropna is None:
+            raise self.err("no groupby call found")
+        return ("/-- `data.groupby(grouping_names, dropna=...)` in `_apply_functions` (pandas default `True` when not given): a row\n"
+                "    whose key contains a missing value belongs to no group; `sort=` / `group_keys=` are pinned to `True` by the lifter -/\n"
+                f"def groupby_dropna : Bool := {'true' if self.groupby_dropna else 'false'}\n\n"
+                f"/-- `DisaggregatedResult._apply_functions` -/\n"
                 f"def apply_functions (nanv : β) ({d} : List (Row α)) ({f} : List α → β)\n"
                 f"    ({n} : Option (List Col)) : List (Key × β) :=\n" + "\n".join(body))
 
@@ -638,10 +675,195 @@ def lift_extract_result(cls):
     return lean, flags
 
 
+# ---------------------------------------------------------------------------------------------- MetricFrame.__init__
+def lift_init(cls, positional):
+    """`MetricFrame.__init__`: the `DisaggregatedResult.create(...)` call (the frame, the annotated functions and the two name
+    lists are passed through unchanged), the `pd.DataFrame.from_dict({"y_true": list(y_t), "y_pred": list(y_p)})` base frame,
+    where `self._sf_names` / `self._cf_names` come from and that the feature columns are stored under exactly those names."""
+    fn = next((n for n in cls.body if isinstance(n, ast.FunctionDef) and n.name == "__init__"), None)
+    if fn is None:
+        raise U(MF, "__init__ not found")
+    params = [x.arg for x in fn.args.args] + [x.arg for x in fn.args.kwonlyargs]
+    for need in ("y_true", "y_pred", "sensitive_features", "control_features", "metrics", "sample_params"):
+        if need not in params:
+            raise U(MF, f"__init__: parameter {need} not found")
+
+    def err(msg, node=None):
+        ln = f" (line {node.lineno})" if node is not None and hasattr(node, "lineno") else ""
+        return U(MF, f"__init__{ln}: {msg}")
+
+    # every binding of a local / attribute anywhere in the body
+    binds = {}
+    for n in ast.walk(fn):
+        tgts = []
+        if isinstance(n, ast.Assign):
+            tgts = [(t, n.value) for t in n.targets]
+        elif isinstance(n, (ast.AugAssign, ast.AnnAssign)):
+            tgts = [(n.target, n.value)]
+        elif isinstance(n, (ast.For, ast.comprehension)):
+            tgts = [(n.target, None)]
+        elif isinstance(n, ast.withitem) and n.optional_vars is not None:
+            tgts = [(n.optional_vars, None)]
+        elif isinstance(n, ast.NamedExpr):
+            tgts = [(n.target, n.value)]
+        for t, v in tgts:
+            for el in (t.elts if isinstance(t, (ast.Tuple, ast.List)) else [t]):
+                key = dotted(el)
+                if key is not None:
+                    binds.setdefault(key, []).append(v if el is t else None)
+
+    def single(name, what):
+        vs = binds.get(name, [])
+        if name in params or len(vs) != 1 or vs[0] is None:
+            raise err(f"{what}: `{name}` is not a local bound exactly once by a plain assignment")
+        return vs[0]
+
+    def squeezed(e, param, what):
+        """`e` is a local bound once to `_convert_to_ndarray_and_squeeze(<param>)`"""
+        if not isinstance(e, ast.Name):
+            raise err(f"{what}: {ast.unparse(e)} is not a local name", e)
+        v = single(e.id, what)
+        if not (isinstance(v, ast.Call) and dotted(v.func) == "_convert_to_ndarray_and_squeeze" and len(v.args) == 1
+                and not v.keywords and is_name(v.args[0], param)):
+            raise err(f"{what}: `{e.id}` is not _convert_to_ndarray_and_squeeze({param}): {ast.unparse(v)}", v)
+        return e.id
+
+    calls = [n for n in ast.walk(fn) if isinstance(n, ast.Call) and (dotted(n.func) or "").endswith("DisaggregatedResult.create")]
+    if len(calls) != 1:
+        raise err(f"expected exactly one DisaggregatedResult.create(...) call, found {len(calls)}")
+    c = calls[0]
+    kws = {k.arg: k.value for k in c.keywords}
+    if c.args or None in kws or len(kws) != len(c.keywords) \
+            or set(kws) != {"data", "annotated_functions", "sensitive_feature_names", "control_feature_names"}:
+        raise err(f"unexpected arguments of DisaggregatedResult.create: {ast.unparse(c)}", c)
+    # the result goes to _populate_results unchanged
+    holder = next((n for n in ast.walk(fn) if isinstance(n, ast.Assign) and n.value is c), None)
+    pops = [n for n in ast.walk(fn) if isinstance(n, ast.Call) and dotted(n.func) == "self._populate_results"]
+    if len(pops) != 1 or len(pops[0].args) != 1 or pops[0].keywords:
+        raise err("expected exactly one self._populate_results(<result>) call")
+    if holder is not None:
+        if not (len(holder.targets) == 1 and isinstance(holder.targets[0], ast.Name) and len(binds[holder.targets[0].id]) == 1
+                and is_name(pops[0].args[0], holder.targets[0].id)):
+            raise err("the result of DisaggregatedResult.create is not what _populate_results receives", holder)
+    elif pops[0].args[0] is not c:
+        raise err("the result of DisaggregatedResult.create is not what _populate_results receives", c)
+    # data= : the frame built by from_dict
+    if not isinstance(kws["data"], ast.Name):
+        raise err(f"data= is not a local name: {ast.unparse(kws['data'])}", c)
+    frame = kws["data"].id
+    fd = single(frame, "data=")
+    if not (isinstance(fd, ast.Call) and dotted(fd.func) in ("pd.DataFrame.from_dict", "pd.DataFrame", "DataFrame.from_dict")
+            and len(fd.args) == 1 and not fd.keywords and isinstance(fd.args[0], ast.Dict)):
+        raise err(f"`{frame}` is not pd.DataFrame.from_dict({{...}}): {ast.unparse(fd)}", fd)
+    cols = []
+    y_t = None
+    for k, v in zip(fd.args[0].keys, fd.args[0].values):
+        if not (isinstance(k, ast.Constant) and isinstance(k.value, str)):
+            raise err("a key of the from_dict dictionary is not a string constant", fd)
+        if not (isinstance(v, ast.Call) and dotted(v.func) == "list" and len(v.args) == 1 and not v.keywords):
+            raise err(f"column {k.value!r} is not list(<converted array>): {ast.unparse(v)}", fd)
+        src = None
+        for prm in ("y_true", "y_pred"):
+            try:
+                loc = squeezed(v.args[0], prm, f"column {k.value!r}")
+                src = prm
+                if prm == "y_true":
+                    y_t = loc
+                break
+            except translate.Untranslatable:
+                continue
+        if src is None:
+            raise err(f"column {k.value!r} is neither the converted y_true nor the converted y_pred: {ast.unparse(v)}", fd)
+        cols.append((k.value, src))
+    if len(cols) != 2 or len({k for k, _ in cols}) != 2 or {p for _, p in cols} != {"y_true", "y_pred"}:
+        raise err(f"the base frame does not have exactly one column for y_true and one for y_pred: {cols}", fd)
+    # annotated_functions= : self._get_annotated_metric_functions(metrics, sample_params, <frame>)
+    if not isinstance(kws["annotated_functions"], ast.Name):
+        raise err(f"annotated_functions= is not a local name", c)
+    af = single(kws["annotated_functions"].id, "annotated_functions=")
+    if not (isinstance(af, ast.Call) and dotted(af.func) == "self._get_annotated_metric_functions"):
+        raise err(f"annotated_functions= is not the result of self._get_annotated_metric_functions: {ast.unparse(af)}", af)
+    given = dict(zip(["metric", "sample_params", "all_data"], af.args))
+    for k in af.keywords:
+        if k.arg is None or k.arg in given:
+            raise err(f"unexpected arguments in {ast.unparse(af)}", af)
+        given[k.arg] = k.value
+    if set(given) != {"metric", "sample_params", "all_data"} or not is_name(given["metric"], "metrics") \
+            or not is_name(given["sample_params"], "sample_params") or not is_name(given["all_data"], frame):
+        raise err(f"_get_annotated_metric_functions is not called with (metrics, sample_params, {frame}): {ast.unparse(af)}", af)
+
+    # the name lists
+    def names_of(attr, prefix, param, optional):
+        """`self.<attr> = [x.name_ for x in L]`, `L = self._process_features(prefix, param, y_t)`; optional: also `= None`
+        before, and the list only under `if <param> is not None`; the columns `frame[f.name_] = list(f.raw_feature_)`"""
+        vs = binds.get(attr, [])
+        lists = [v for v in vs if not (isinstance(v, ast.Constant) and v.value is None)]
+        nones = [v for v in vs if isinstance(v, ast.Constant) and v.value is None]
+        if len(lists) != 1 or (nones and not optional) or (optional and len(nones) != 1) or lists[0] is None:
+            raise err(f"{attr}: unexpected assignments")
+        lc = lists[0]
+        if not (isinstance(lc, ast.ListComp) and len(lc.generators) == 1 and not lc.generators[0].ifs
+                and isinstance(lc.generators[0].target, ast.Name) and isinstance(lc.generators[0].iter, ast.Name)
+                and isinstance(lc.elt, ast.Attribute) and lc.elt.attr == "name_" and is_name(lc.elt.value, lc.generators[0].target.id)):
+            raise err(f"{attr} is not [x.name_ for x in <feature list>]: {ast.unparse(lc)}", lc)
+        flist = lc.generators[0].iter.id
+        fvs = [v for v in binds.get(flist, []) if not (isinstance(v, ast.Constant) and v.value is None)]
+        if len(fvs) != 1 or fvs[0] is None:
+            raise err(f"{attr}: the feature list `{flist}` is not bound once")
+        pf = fvs[0]
+        if not (isinstance(pf, ast.Call) and dotted(pf.func) == "self._process_features" and len(pf.args) == 3 and not pf.keywords
+                and isinstance(pf.args[0], ast.Constant) and pf.args[0].value == prefix and is_name(pf.args[1], param)
+                and is_name(pf.args[2], y_t)):
+            raise err(f"`{flist}` is not self._process_features({prefix!r}, {param}, {y_t}): {ast.unparse(pf)}", pf)
+        if optional:
+            # both the list and the names are assigned in the same `if <param> is not None:` body
+            guards = [n for n in ast.walk(fn) if isinstance(n, ast.If) and any(isinstance(s, ast.Assign) and s.value is lc for s in n.body)]
+            if len(guards) != 1 or guards[0].orelse or ast.unparse(guards[0].test) != f"{param} is not None" \
+                    or not any(isinstance(s, ast.Assign) and s.value is pf for s in guards[0].body):
+                raise err(f"{attr} / {flist} are not assigned together under `if {param} is not None:`")
+        # the column store
+        stores = [n for n in ast.walk(fn) if isinstance(n, ast.For) and is_name(n.iter, flist)]
+        if len(stores) != 1:
+            raise err(f"expected exactly one loop over `{flist}` storing the feature columns")
+        lp = stores[0]
+        ok = (isinstance(lp.target, ast.Name) and len(lp.body) == 1 and not lp.orelse and isinstance(lp.body[0], ast.Assign)
+              and len(lp.body[0].targets) == 1)
+        if ok:
+            tg, v = lp.body[0].targets[0], lp.body[0].value
+            ok = (isinstance(tg, ast.Subscript) and is_name(tg.value, frame) and isinstance(tg.slice, ast.Attribute)
+                  and tg.slice.attr == "name_" and is_name(tg.slice.value, lp.target.id)
+                  and isinstance(v, ast.Call) and dotted(v.func) == "list" and len(v.args) == 1 and not v.keywords
+                  and isinstance(v.args[0], ast.Attribute) and v.args[0].attr == "raw_feature_" and is_name(v.args[0].value, lp.target.id))
+        if not ok:
+            raise err(f"the loop over `{flist}` is not `{frame}[f.name_] = list(f.raw_feature_)`: {ast.unparse(lp)[:100]}", lp)
+
+    if y_t is None:
+        raise err("the converted y_true is not found")
+    for key, attr in (("sensitive_feature_names", "self._sf_names"), ("control_feature_names", "self._cf_names")):
+        if dotted(kws[key]) != attr:
+            raise err(f"{key}= is not {attr}: {ast.unparse(kws[key])}", c)
+    names_of("self._sf_names", "sensitive_feature_", "sensitive_features", False)
+    names_of("self._cf_names", "control_feature_", "control_features", True)
+    missing = [p for p in positional if p not in [k for k, _ in cols]]
+    pairs = ", ".join(f'("{k}", {p})' for k, p in cols)
+    lean = ("/-- `MetricFrame.__init__`: `all_data = pd.DataFrame.from_dict({...})` of the converted `y_true` / `y_pred` -/\n"
+            f"def init_base_data (y_true y_pred : List Rat) : AllData := [{pairs}]\n\n"
+            "/-- `MetricFrame.__init__`: `DisaggregatedResult.create(data=all_data, annotated_functions=annotated_funcs,\n"
+            "    sensitive_feature_names=self._sf_names, control_feature_names=self._cf_names)`, where `self._sf_names` are the names\n"
+            "    of the `nsf` sensitive columns and `self._cf_names` those of the `ncf` control columns (`None` without control\n"
+            "    features), each column stored under exactly that name: `by_group` -/\n"
+            "def init_by_group (nanv : β) (all_data : List (Row α)) (annotated_funcs : List α → β) (nsf ncf : Nat) : List (Key × β) :=\n"
+            "  create_by_group nanv all_data annotated_funcs (sfNames nsf) (cfNames ncf)\n\n"
+            "/-- the same call: `overall` -/\n"
+            "def init_overall (nanv : β) (all_data : List (Row α)) (annotated_funcs : List α → β) (nsf ncf : Nat) : List (Key × β) :=\n"
+            "  create_overall nanv all_data annotated_funcs (sfNames nsf) (cfNames ncf)")
+    return lean, {"base_columns": cols, "positional_missing_from_base": missing}
+
+
 @translate.lifter
 def lift(repo):
     def parse(rel):
-        return ast.parse(open(os.path.join(repo, rel)).read())
+        return normalize.parse(open(os.path.join(repo, rel)).read())
     dr = parse(DR)
     cls = next((n for n in dr.body if isinstance(n, ast.ClassDef) and n.name == "DisaggregatedResult"), None)
     if cls is None:
@@ -669,6 +891,7 @@ def lift(repo):
     cons_lean, cons_meta = lift_construct(mcls)
     bare_lean = lift_get_annotated(mcls)
     extract_lean, extract_meta = lift_extract_result(mcls)
+    init_lean, init_meta = lift_init(mcls, cons_meta["positional"])
     lean = f"""-- GENERATED by harness/lifters/frame.py from {DR}, {AMF}, {MF}; do not edit.
 -- Translation of the function bodies over the pandas primitives of Model/FramePrims.lean.
 import FairModel.Model.FramePrims
@@ -680,7 +903,7 @@ open Frame FramePrims
 
 variable {{α β γ : Type}}
 
-""" + "\n\n".join([af_lean] + create_lean + [atd_lean, call_lean, cons_lean, bare_lean, extract_lean]) + "\n\nend FrameSrc\n"
-    meta = {"sources": [DR, AMF, MF], "grouping": create_meta, "call": call_meta, "construct": cons_meta, "extract_flags": extract_meta,
+""" + "\n\n".join([af_lean] + create_lean + [atd_lean, call_lean, cons_lean, bare_lean, extract_lean, init_lean]) + "\n\nend FrameSrc\n"
+    meta = {"sources": [DR, AMF, MF], "grouping": create_meta, "call": call_meta, "construct": cons_meta, "extract_flags": extract_meta, "init": init_meta,
             "sha256": hashlib.sha256(lean.encode()).hexdigest()}
     return "FrameSrc.lean", lean, meta
